@@ -76,6 +76,10 @@ func (w *World) recvOracle(c *tibctesting.TestChain, p packettypes.Packet, h uin
 		}
 		return
 	}
+	if c.ChainName != p.DestinationChain && c.ChainName != p.RelayChain {
+		w.hit("C13", fmt.Sprintf("receive-accepted-by-a-chain-the-packet-does-not-name chain=%s %s relay=%s", c.ChainName, pkeyStr(p), undash(p.RelayChain)))
+		w.hit("C01", fmt.Sprintf("receive-accepted-by-a-chain-the-packet-does-not-name chain=%s %s relay=%s", c.ChainName, pkeyStr(p), undash(p.RelayChain)))
+	}
 	// C01: the proving chain committed exactly this packet at the proof height
 	q := w.Chain(recvProver(c, p))
 	want := sha256.Sum256(p.Data)
@@ -134,6 +138,10 @@ func (w *World) ackOracle(c *tibctesting.TestChain, p packettypes.Packet, ack []
 	want := sha256.Sum256(p.Data)
 	if !bytes.Equal(commitBefore, want[:]) {
 		w.hit("C03", "ack-accepted-without-holding-the-packet-commitment "+key)
+	}
+	if c.ChainName != p.SourceChain && c.ChainName != p.RelayChain {
+		w.hit("C13", fmt.Sprintf("acknowledgement-accepted-by-a-chain-the-packet-does-not-name chain=%s %s relay=%s", c.ChainName, pkeyStr(p), undash(p.RelayChain)))
+		w.hit("C03", fmt.Sprintf("acknowledgement-accepted-by-a-chain-the-packet-does-not-name chain=%s %s relay=%s", c.ChainName, pkeyStr(p), undash(p.RelayChain)))
 	}
 	if c.ChainName == p.SourceChain && p.Port != "tibcmock" && p.Port != "NFT" && p.Port != "MT" {
 		// no application is bound to the port: the acknowledgement consumed the commitment and no
